@@ -126,6 +126,13 @@ def main():
                       % (a.prop, "; ".join(p.splitlines()[0] for p in ctx.proof["problems"])),
                       no_input=True, suffix="txt")
 
+    # the evidence level is one of the schema's categories; anything a module wrote in its own words is kept as detail
+    LEVELS = ("exploration", "fault_enumeration", "model_checking", "proof", "translation_validation", "other")
+    if ctx.level not in LEVELS:
+        ctx.coverage["level_detail"] = str(ctx.level)
+        ctx.level = "proof" if has_props else "other"
+    if hasattr(mod, "FORCE_LEVEL"):
+        ctx.level = mod.FORCE_LEVEL
     vlib.write_evidence(ctx)
     for line in ctx.known_printed:
         print(line)
